@@ -50,6 +50,10 @@ pub enum Frame {
     Null,
 }
 
+/// The maximum number of arrays that can be nested within each other. Frames are parsed
+/// recursively so the depth has to be limited to protect the stack.
+const MAX_DEPTH: usize = 32;
+
 impl Frame {
     /// Try to read data of a frame from the given reader.
     ///
@@ -59,6 +63,10 @@ impl Frame {
     ///
     /// [`FrameError::Incomplete`]: crate::resp::frame::Error::Incomplete
     pub fn parse(reader: &mut Cursor<&[u8]>) -> Result<Self, Error> {
+        Self::parse_nested(reader, 0)
+    }
+
+    fn parse_nested(reader: &mut Cursor<&[u8]>, depth: usize) -> Result<Self, Error> {
         match get_byte(reader)? {
             b'+' => {
                 let l = get_line(reader)?;
@@ -99,11 +107,15 @@ impl Frame {
             b'*' => {
                 // Parse the array length and try convert it to u64
                 let len = get_integer(reader)?;
-                let len = len.try_into().map_err(|_| Error::BadEncoding)?;
-                // Recursively parse each element of the array
-                let mut items = Vec::with_capacity(len);
+                let len: usize = len.try_into().map_err(|_| Error::BadEncoding)?;
+                if depth >= MAX_DEPTH {
+                    return Err(Error::BadEncoding);
+                }
+                // Recursively parse each element of the array. An element takes at least one
+                // byte so there's no need to reserve space for more elements than that.
+                let mut items = Vec::with_capacity(len.min(reader.remaining()));
                 for _ in 0..len {
-                    items.push(Frame::parse(reader)?);
+                    items.push(Frame::parse_nested(reader, depth + 1)?);
                 }
                 Ok(Frame::Array(items))
             }
@@ -113,6 +125,10 @@ impl Frame {
 
     /// Checks if a message frame can be parsed from the reader without memory allocations.
     pub fn check(buf: &mut Cursor<&[u8]>) -> Result<(), Error> {
+        Self::check_nested(buf, 0)
+    }
+
+    fn check_nested(buf: &mut Cursor<&[u8]>, depth: usize) -> Result<(), Error> {
         match get_byte(buf)? {
             b'+' => {
                 get_line(buf)?;
@@ -136,8 +152,11 @@ impl Frame {
             }
             b'*' => {
                 let n = get_integer(buf)?;
+                if depth >= MAX_DEPTH {
+                    return Err(Error::BadEncoding);
+                }
                 for _ in 0..n {
-                    Frame::check(buf)?;
+                    Frame::check_nested(buf, depth + 1)?;
                 }
             }
             _ => return Err(Error::BadEncoding),
